@@ -37,7 +37,9 @@ SHAPES = [
     "enum E<T> { @V A(@F T), @V B(T, @F u8), C }", "enum E { A = 1, @V B, C = 5, @V D(u8) }", "#[repr(u8)] enum E { @V A = 1, B }", "#[repr(C, i16)] enum E { @V A, B(u8) }",
     "enum E { @V r#type, r#Loop(@F u8) }", "enum E { @V A(@F u8, u8, @F u8), @V B(u8, u8, u8) }", "enum E { @V A { source: u8, @F backtrace: u8 }, B(@F Backtrace, u8) }",
     "union U { @F a: u8, b: u16 }", "union U<T: Copy> { @F a: T }", "struct S<T: ?Sized>(@F Box<T>);", "struct S<const N: usize = 3>(@F [u8; N]);",
-    "struct S<'a>(@F &'a str, @F &'a mut u8);", "struct S(@F fn(u8) -> u8, Box<dyn Fn(u8)>);", "struct S(@F (u8, (u16, u32)), [u8; 2]);", "enum E { A(@F <i32 as core::ops::Add>::Output) }",
+    "struct S<'a>(@F &'a str, @F &'a mut u8);", "struct S<const N: usize> where [(); N]: Sized;", "struct S<T>() where T: Copy;", "struct S<T> where T: Copy {}",
+    "struct S<T>(@F T) where T: Copy, Vec<T>: Clone;", "struct S<T, const N: usize> where T: Copy { @F a: [T; N] }", "enum E<T> where T: Copy { @V A(@F T), @V B }",
+    "enum E<const N: usize> where [(); N]: Sized {}", "struct S<'a, 'b: 'a, T: 'b + ?Sized>(@F &'a &'b T);", "struct S(@F fn(u8) -> u8, Box<dyn Fn(u8)>);", "struct S(@F (u8, (u16, u32)), [u8; 2]);", "enum E { A(@F <i32 as core::ops::Add>::Output) }",
 ]
 
 
